@@ -56,6 +56,8 @@ fn main() {
 		("C02", Some(c)) => checks::c02::replay(ctx.clone(), c),
 		("C03", None) => checks::c03::run(ctx.clone()),
 		("C03", Some(c)) => checks::c03::replay(ctx.clone(), c),
+		("C04", None) => checks::c04::run(ctx.clone()),
+		("C04", Some(c)) => checks::c04::replay(ctx.clone(), c),
 		("C12", None) => checks::c12::run(ctx.clone()),
 		("C12", Some(c)) => checks::c12::replay(ctx.clone(), c),
 		("C14", None) => checks::c14::run(ctx.clone()),
